@@ -253,8 +253,9 @@ fn cmd_determinism(args: &[String]) -> i32 {
                 c2.recorded = a.recorded.clone();
                 let c = driver::eval_case(check.as_ref(), &c2, Duration::from_secs(120));
                 let h = |r: &driver::ChildResult| r.stats.as_ref().map(|s| (s.trace_hash, s.steps, s.switches));
-                let va = |r: &driver::ChildResult| r.violations.iter().map(|v| v.class.clone()).collect::<Vec<_>>();
-                let ok = h(&a) == h(&b) && h(&a).is_some() && va(&a) == va(&b);
+                // (a run stopped by a budget has no statistics; its class is compared up to the stack site)
+                let va = |r: &driver::ChildResult| r.violations.iter().map(|v| if v.class.starts_with("unbounded") { v.class.split('@').next().unwrap_or("").to_string() } else { v.class.clone() }).collect::<Vec<_>>();
+                let ok = h(&a) == h(&b) && (h(&a).is_some() || !a.violations.is_empty()) && va(&a) == va(&b);
                 let ok_replay = h(&a) == h(&c) && va(&a) == va(&c);
                 out.push_str(&format!("{} {} {} {:?} {:?} {:?}\n", seed, ok, ok_replay, h(&a), h(&b), h(&c)));
                 i += jobs as u64;
